@@ -108,8 +108,11 @@ def table(fl: Flow, keep: Optional[Callable[[str, str], bool]] = None):
             pr_.assume = None
         if keep is not None and not keep(e.kind, s):
             continue
+        cc = fl.canon_cond(cond)
+        if cc == "FALSE":
+            continue  # dead: the path condition is contradictory (a helper's `if arg is None` arm inlined with a constructor call)
         fl.__dict__.setdefault("_cbools", {})[id(e)] = pr_._bool(_cond_ast(cond)) if cond else ("const", True)
-        effs.append((e.kind, s, fl.canon_cond(cond), e))
+        effs.append((e.kind, s, cc, e))
     return rets, effs
 
 
